@@ -50,6 +50,10 @@ CHECKS = {
         'property-based testing: metamorphic relation over whitespace/comment layouts + reference oracle RefPEG under the effective configuration + layering differential (compile-time < directive < parse-time)',
         'Generated grammars x configurations (whitespace default/regex/none, nameguard, namechars, ignorecase, comments and eol_comments as directives or settings) x sentences in base/varied/adversarial layouts: outcome(varied)==outcome(base); every layout agrees with the reference; each setting given at any subset of the three layers behaves like the single effective value. Exploration.',
         REF_NOTE + '; whitespace/comment patterns are assumed non-nullable; nameguard=False together with namechars is not generated (config.py forces nameguard on)', 'DESIGN.md §3 C09'),
+    'C10': (
+        'stateful (history-based) differential testing: generated sequences of public API calls executed in a child of a pristine process, each step compared with the same call re-created in another pristine child; model/config immutability invariants; sampled multi-thread runs under a 1e-6 switch interval',
+        'Histories of 3-14 calls (compile with name/asmodel/semantics incl. same-class instances/ignorecase/whitespace, sibling calls that differ in one argument, tatsu.parse, model.parse with start and settings, generated parsers reused after failures, to_python_sourcecode/model, gc) over 8 grammars: every step equals its fresh-process reference; no parse alters the model or a supplied config. 2-8 threads on one shared model equal the sequential results. Exploration.',
+        'a child forked from a process that imported tatsu but never called it stands for a fresh interpreter; thread schedules are sampled, not owned', 'DESIGN.md §3 C10'),
     'C11': (
         'property-based testing: generated grammars with an @name rule spliced into choices/closures/lookaheads, keywords in any case; reference oracle RefPEG-with-keywords + collecting-semantics assertion + undecorated-grammar differential + model-vs-generated differential',
         'Generated grammars x keywords x ignorecase (directive / parse-time / off) x inputs whose identifiers are drawn from keywords, prefixes, suffixes and case variants: the @name rule never hands a keyword to its action; outcomes agree with the reference, with the undecorated grammar when no keyword was seen, and between model and generated parser. Exploration.',
